@@ -18,7 +18,7 @@ Lemma sentence_cut : forall (d1 d2 c : N) (a : line) (w : N) (b : line),
   exists more, dde_sentences [[d1; d2; 32] ++ (c :: a) ++ 46 :: w :: b] = ([d1; d2], c :: a) :: more.
 Proof.
   intros d1 d2 c a w b H1 H2 Hc Ha Hw. unfold dde_sentences. cbn [concat]. rewrite app_nil_r.
-  cbn [app scan]. unfold try_match.
+  cbn [app scan]. rewrite try_match_eq.
   rewrite lstrip_head by (apply digit_not_ws; exact H1). rewrite H1, H2. cbn [andb].
   change (lstrip (32 :: c :: a ++ 46 :: w :: b)) with (lstrip (c :: a ++ 46 :: w :: b)).
   rewrite lstrip_head by exact Hc.
